@@ -150,6 +150,26 @@ def run(chk):
             if got[0] != 0 or filt(got[1]) != filt(exp[1]):
                 chk.violation("the same byte stream cut into different read() chunks (%s) is treated differently" % mode, "stream %r\nwhole: %r\nchunked: %r\nstderr %s" % (stream, exp[1], got[1], got[2][-800:]), "chunking")
                 break
+    # (e) info requests and client traffic after a reload whose core.modules entry is written differently (other order, fewer names):
+    #     nothing is loaded or unloaded by a reload, so the answers must be those of the same session without the reload, and no
+    #     module may be left holding a name that the configuration tree has freed (D25)
+    info = L("-1 ? config", "-1 ? stats", "7 C 10.1.2.5 4002 10.0.0.1 6667", "7 H", "-1 ? config", "7 D", "-1 ? stats")
+    for with_class in (True, False):
+        for nrel in (1, 2, 3):
+            if len(chk.violations) >= 4: break
+            svcs = [('a.svc', 'login')]; rules = [dict(name='r1', **{'class': 'c1'})] if with_class else []
+            rel = [('R', svcs, rules, 0)]
+            with_r = Scn(True, with_class, svcs, rules, 0, L("5 C 1.2.3.4 1 10.0.0.1 6667") + rel * nrel + info, "info requests after %d reload(s) with a rewritten core.modules" % nrel)
+            without = Scn(True, with_class, svcs, rules, 0, L("5 C 1.2.3.4 1 10.0.0.1 6667") + info, "")
+            dr, dn = run_daemons(impl, [with_r, without])
+            chk.cov["evaluations"] += 1; chk.hist("reload with rewritten core.modules")
+            a = [st[0] for st in dr.steps[1 + nrel:]]; b = [st[0] for st in dn.steps[1:]]
+            strip = lambda ls: [[l for l in x if not l.startswith('S ') or 'alloc' in l or 'in use' in l] for x in ls]
+            if dr.rc != 0 or dn.rc != 0 or strip(a) != strip(b):
+                chk.violation("after a reload that only rewrites core.modules (other order / fewer names) the daemon %s" % (("fails with exit status %s: %s" % (dr.rc, dr.stderr[-600:].replace("\n", " | "))) if dr.rc != 0 else "answers differently"),
+                              replay_text(with_r, dr, None) if dr.rc != 0 else "with reload:\n%s\n\nwithout:\n%s" % (fmt_steps(with_r, dr.steps), fmt_steps(without, dn.steps)), "reload-modules")
+            else:
+                chk.cov["traces_validated_against_impl"] += 1
     chk.cov["distinct_nontrivial"] = len(distinct)
     chk.cov["samples"] = [repr(jobs[0][1][:300]), repr(jobs[len(base) + 5][1]) if len(jobs) > len(base) + 5 else "", repr(jobs[-1][1][:120])]
     chk.cov["rule"] = "byte streams: generated sessions with junk lines (unknown ids, unknown commands, malformed replies, missing parameters, >16 parameters, 5000-byte lines, NUL and high bytes) and mutations mixed in, CRLF and LF line ends, a final partial line; every prefix of the first streams; random bytes; the same stream through a pipe in 1-byte / random / page-sized chunks. Required: exit status 0, sanitizers silent, stdout equal to the model's output for the complete lines of the stream; distinct = distinct non-empty outputs"
